@@ -37,9 +37,21 @@ func main() {
 	seed, count, wo, wi, _, done := hv.Args()
 	defer done()
 	rng := rand.New(rand.NewSource(seed))
+	nReused := 0
+	defer func() { hv.Stats(map[string]int{"cases_on_a_reinitialized_object": nReused}) }()
+	var prev *items.TicksSinceStart
 	for it := 0; it < count; it++ {
 		hours := []int{1, 6, 24, 168}[rng.Intn(4)]
 		ts := &items.TicksSinceStart{}
+		reused := false
+		if prev != nil && rng.Intn(2) == 0 {
+			reused = true
+			// a second Configure + Initialize on an object that has already analysed a history starts from scratch
+			// (the model always does: `tnew`)
+			ts = prev
+			nReused++
+		}
+		prev = ts
 		facts := map[string]interface{}{items.ConfigTicksSinceStartTickSize: hours}
 		ts.Configure(facts)
 		repo, _ := git.Init(memory.NewStorage(), nil)
@@ -66,7 +78,7 @@ func main() {
 			} else {
 				cur = base.Add(time.Duration(rng.Intn(hours*20*3600)-hours*3*3600) * time.Second)
 			}
-			np := []int{1, 1, 2, 2, 3}[rng.Intn(5)]
+			np := []int{1, 1, 2, 2, 3, 1, 1, 2, 0}[rng.Intn(9)] // 0: a further root commit later in the history
 			if i == 0 {
 				np = 0
 			}
@@ -110,6 +122,20 @@ func main() {
 					fmt.Sprintf("branch %d was at tick %d and got tick %d for commit %d", b, last, tick, i))
 			}
 			lastTick[b] = tick
+			if monotone {
+				// with non-decreasing committer times the tick is the floored elapsed time since the floored first time
+				size := time.Duration(hours) * time.Hour
+				want := int(c.c.Committer.When.Sub(commits[0].c.Committer.When.Truncate(size)) / size)
+				if tick != want {
+					var ts []int64
+					for _, x := range commits {
+						ts = append(ts, x.c.Committer.When.Unix())
+					}
+					j, _ := json.Marshal(map[string]interface{}{"seed": seed, "case": it, "tick_hours": hours, "times": ts, "branch": b, "commit": i,
+						"object_reused_after_an_earlier_history": reused})
+					hv.Fail("wrong-tick", string(j), fmt.Sprintf("commit %d (monotone times) got tick %d, the floored elapsed time is %d", i, tick, want))
+				}
+			}
 			log = append(log, [3]int{b, i, tick})
 			if given[i] == nil {
 				given[i] = map[int]bool{}
